@@ -288,7 +288,9 @@ def kde_multivariate(events_x, events_y, xout=None, yout=None, bw=None):
         bw = (bin_width_doane(events_x) / 2,
               bin_width_doane(events_y) / 2)
 
-    positions = np.vstack([xout.flatten(), yout.flatten()])
+    # One row per position: an array of shape (2, 2) is otherwise
+    # taken as two positions (x0, x1) and (y0, y1).
+    positions = np.vstack([xout.flatten(), yout.flatten()]).T
     estimator_ly = KDEMultivariate(data=[events_x.flatten(),
                                          events_y.flatten()],
                                    var_type='cc', bw=bw)
